@@ -200,8 +200,13 @@ def _gen_body(ctx, p, g):
         ctx.require(list(H._node) == list(k0), f"{g}: node set differs from the keys of k")
         es = edges_of(H)
         ctx.require(all(len(e) == m for e in es), f"{g}: an edge does not have exactly m nodes")
-        ctx.require(all(len(H._node[v]) <= k[v] for v in k0), f"{g}: a degree exceeds the prescribed (possibly bumped) degree")
-        ctx.require(all(k[v] - k0[v] in (0, 1) for v in k0) and (sum(k.values()) % m == 0), f"{g}: degree bump is not a minimal completion")
+        # the documented completion of a non-realizable sequence raises the degree of
+        # (m - remainder) distinct nodes by one; the caller's dictionary is left alone
+        rem = sum(k0.values()) % m
+        bump = (m - rem) if rem else 0
+        over = [v for v in k0 if len(H._node[v]) > k0[v]]
+        ctx.require(all(len(H._node[v]) <= k0[v] + 1 for v in k0) and len(over) <= bump, f"{g}: a degree exceeds the prescribed (possibly bumped) degree")
+        ctx.require(k == k0, f"{g}: the degree dictionary given by the caller was modified")
         ctx.require(not nets.inv_H(H), f"{g}: incidence invariant broken")
     elif g in ("chung_lu_hypergraph", "dcsbm_hypergraph"):
         k1 = {int(a): b for a, b in p["k1"].items()}
